@@ -25,7 +25,7 @@ TRUSTED = ['lean/Spec/Md6.lean as a rendering of the MD6 report (validated only 
            'report\'s "abc" d=256 digest; there is no independent executable MD6 in the image)',
            'Model.Bits / Model.Padding (shared models of crysp/bits.py, crysp/padding.py), CPython struct/int semantics (Model.Py)']
 ASSUMPTIONS = ['python -O (asserts stripped) is out of scope',
-               'outside the report\'s parameter ranges (d > 512, key > 64 bytes, L > 255, rounds 0 or > 4095, bitlen = 0 with data) the code is '
+               'outside the report\'s parameter ranges (d > 512, key > 64 bytes, L > 255, rounds 0 or > 4095) the code is '
                'compared with the model only; the specification defines nothing there']
 
 DS = [1, 7, 8, 160, 224, 250, 256, 384, 511, 512]
@@ -106,11 +106,11 @@ def check_impl(line, res):
     if d % 8 and out[-1] & ((1 << (8 - d % 8)) - 1): return '%s: unused low bits of the last digest byte are not zero' % op
     if op != 'md6': return None
     msg, bl = unhx(a[4]), unoi(a[5])
-    if bl is None or bl == 0 or bl > 8 * len(msg) or len(msg) > 1200: return None
+    if bl is None or bl > 8 * len(msg) or len(msg) > 1200: return None
     # message bit length handling: only the first bl bits matter
     nbytes = (bl + 7) // 8
     canon = bytearray(msg[:nbytes])
-    if bl % 8: canon[-1] &= 0xff ^ ((1 << (8 - bl % 8)) - 1)
+    if bl % 8 and canon: canon[-1] &= 0xff ^ ((1 << (8 - bl % 8)) - 1)
     canon = bytes(canon)
     if canon != msg:
         other = run_impl(' '.join(['md6'] + a[:4] + [hx(canon), str(bl)]))
@@ -282,7 +282,7 @@ def cases(tier, rng):
         for L in (0, 1, 64):
             yield L_md6(256, L, 1, b'', base, 8 * n + 1), 'err.bitlen>8|M|'
             yield L_md6(256, L, 1, b'', base, 8 * n + 4096), 'err.bitlen>8|M|'
-            yield L_md6(256, L, 1, b'', base, 0), 'out.bitlen=0'
+            yield L_md6(256, L, 1, b'', base, 0), 'bitlen=0'
     for kl in (65, 66, 100):
         for L in (0, 64):
             yield L_md6(256, L, 1, rb(rng, kl), b'abc', None), 'out.key>64'
